@@ -255,20 +255,24 @@ func tlcEdgeCheck(l *explore.Local, _ struct{}, e tlcEdge) *explore.Fail {
 
 // runTLC runs the model checker in a scratch directory and returns the dot dump path.
 func runTLC(tlaDir, scratch string) (dot string, states string, err error) {
+	return runTLCSpec(tlaDir, scratch, "Timer")
+}
+
+func runTLCSpec(tlaDir, scratch, spec string) (dot string, states string, err error) {
 	if _, e := exec.LookPath("tlc"); e != nil {
 		return "", "", fmt.Errorf("tlc not installed")
 	}
-	dir := filepath.Join(scratch, "tlc")
+	dir := filepath.Join(scratch, "tlc-"+spec)
 	os.MkdirAll(dir, 0o755)
-	for _, f := range []string{"Timer.tla", "Timer.cfg"} {
+	for _, f := range []string{spec + ".tla", spec + ".cfg"} {
 		b, e := os.ReadFile(filepath.Join(tlaDir, f))
 		if e != nil {
 			return "", "", e
 		}
 		os.WriteFile(filepath.Join(dir, f), b, 0o644)
 	}
-	dot = filepath.Join(dir, "timer.dot")
-	cmd := exec.Command("tlc", "-workers", "4", "-dump", "dot,actionlabels", dot, "Timer.tla")
+	dot = filepath.Join(dir, "graph.dot")
+	cmd := exec.Command("tlc", "-workers", "4", "-dump", "dot,actionlabels", dot, spec+".tla")
 	cmd.Dir = dir
 	done := make(chan struct{})
 	var out []byte
@@ -285,7 +289,7 @@ func runTLC(tlaDir, scratch string) (dot string, states string, err error) {
 		if len(tail) > 1500 {
 			tail = tail[len(tail)-1500:]
 		}
-		return "", "", fmt.Errorf("TLC did not report success on the MODEL (this is a defect of tla/Timer.tla, not of the implementation): %s", tail)
+		return "", "", fmt.Errorf("TLC did not report success on the MODEL (this is a defect of the TLA+ model, not of the implementation): %s", tail)
 	}
 	if m := regexp.MustCompile(`(\d+) states generated, (\d+) distinct states found`).FindStringSubmatch(text); m != nil {
 		states = m[2] + " distinct states, " + m[1] + " states generated"
